@@ -199,6 +199,8 @@ func c14(c *Ctx) (*report.Result, error) {
 			res.Undec("O14.10", "fields of the handled struct containers", "", "no handled container of struct type found")
 		}
 	}
+	res.RuleDoc["O14.11"] = "a translated blob comes back whole: translateOneDataBlob returns its input untouched or the serializer's own new blob, and never stores into a field of the blob it was given (the serializer writes proto3 and labels it so)"
+	checkInputBlobNotWritten(c, res, "O14.11")
 	res.RuleDoc["O14.9"] = "one matcher, chosen by configuration and not by map order: the translator returns the first entry of its per-namespace matcher map, so that map must have at most one entry - makeServerOptions refuses LenNamespaces() > 1 before building the translator, LenNamespaces is the length of the map FlattenMaps ranges over, and FlattenMaps / createStringMatchers emit exactly one entry per element"
 	checkSingleNamespaceGuard(c, res, "O14.9")
 	res.RuleDoc["O14.8"] = "no swallowed error in the files the mechanism lives in: no function returns a nil error on a path on which an error obtained from a call is known to be non-nil (io.EOF from a stream Recv, the normal end of a receive loop, is the one accepted idiom)"
